@@ -2,11 +2,12 @@ import Bptk.Core.C14
 /-! Line-protocol driver for the C14 registry model:  `lake env lean --run Drive/C14.lean < ops`
 
 requests
-  cfg countById|idsAliased 0|1
+  cfg countById|idsAliased|deleteArgSnapshot 0|1
   new <k,k,…|->                 fresh registry with these registered factory keys; factories faithful
   fac <k> <a,a,…|->             factory of key k answers attribute list[id % len] (faithful when `-`)
   create k | delete ids | configure spec | configureall spec | reset | setstate i s     → ok | ERR (raises)
   callerappend t x              model.agent_ids(t).append(x)                             → ok | ERR
+  deleteown t ids|map           model.delete_agents(model.agent_ids(t)) / (model.agent_type_map[t])   → ok | ERR
   query                         every query on types 0..2, states 0..2, ids 0..next+1
   q lookup i | q ids t | q cnt t | q cps t s | q nx t s | q rnd t num u,u,…   single queries (u = 64·random())
 -/
@@ -66,6 +67,10 @@ def stepLine (s : St) (line : String) : St × String :=
   match line.trimAscii.toString.splitOn " " with
   | ["cfg", "countById", v] => ({ s with c := { s.c with countById := v == "1" } }, "ok")
   | ["cfg", "idsAliased", v] => ({ s with c := { s.c with idsAliased := v == "1" } }, "ok")
+  | ["cfg", "deleteArgSnapshot", v] => ({ s with c := { s.c with deleteArgSnapshot := v == "1" } }, "ok")
+  | ["deleteown", t, _] => match t.toNat? with
+      | some t => ({ s with r := stepD s.c s.fac s.r (.deleteOwn t) }, if s.r.mapped t then "ok" else "ERR")
+      | none => bad s
   | ["new", ks] => match parseNats ks with
       | some ks => ({ s with tbl := [], r := Reg.init (fun t => ks.contains t) }, "ok")
       | none => bad s
